@@ -2,15 +2,16 @@
 C16 — MessagePack encoding round-trips values, including unknown ones.
 
 Property theorems only; the induction lives in `CtyModel/Lemmas/Msgpack*.lean`.
-Every statement is about `Msgpack.marshal`, `Msgpack.unmarshal`, `Msgpack.encNum`,
-`Msgpack.unmarshalNumber` — the item-level transliterations of cty/msgpack that
+Every statement is about `Msgpack.marshal`, `Msgpack.Unmarshal` (the exported function:
+`Msgpack.unmarshal` after the optional-attribute annotations have been taken off the
+requested type), `Msgpack.encNum`, `Msgpack.unmarshalNumber` — the item-level transliterations of cty/msgpack that
 the correspondence harness diffs against /repo on every run (real bytes are
 split into items by the harness' own MessagePack reader).  The vocabulary of the
 conclusions (`Approx`, `RawEq`, `Weaker`, `numBack`) and of the hypotheses (`Fits`,
 `wfValue`, `SetsRebuild`) is in `CtyModel/MsgpackSpec.lean`.
 
 The refinement builder's `Value.Equals` on numbers is a parameter of `Refine.lean`
-(`EqOracle`); `unmarshal` here is instantiated with the exact oracle (`partialOracle`:
+(`EqOracle`); `Unmarshal` here is instantiated with the exact oracle (`partialOracle`:
 exact comparison, `.unmodelled` where the code's answer could depend on the decimal
 text) — the driver also runs it with `textOracle`, what the code does (`mp.unmarshal` /
 `mp.unmarshalx`).
@@ -26,6 +27,15 @@ nodes of the value (vacuous without sets).
 The full-strength statement `RoundtripCovers` is FALSE of the code as it exists;
 it is kept as a `def`, with three counterexamples (each the replay of a recorded
 finding) and the strongest partial theorem `roundtrip_covers_partial` (side condition `Fits`).
+
+History: until /repo 986ad55 a whole number beyond the int64 range travelled as its SHORTEST
+decimal text and came back as another number (float64(2^63) as 9223372036854776000); the
+theorems `ints_exact_counterexample`, `whole_numbers_exact_counterexample` (witness 2^63 at 53
+bits) and `roundtrip_covers_counterexample_whole` recorded that.  The code now writes all the
+digits; the model follows (`Msgpack.textF0`), `IntsExact` is a theorem (`ints_exact`), whole
+numbers of any magnitude come back exactly as long as their mantissa fits the 512 bits the
+decoder parses at (`whole_numbers_exact_partial` — every number cty itself makes), and the old
+witness is a positive regression theorem (`whole_beyond_int64_regression`).
 -/
 import CtyModel.Lemmas.MsgpackKnown
 import CtyModel.Lemmas.MsgpackMarks
@@ -44,15 +54,15 @@ theorem limits_are_source :
 
 /-! ## Numbers -/
 
-/-- FULL statement (false): every whole number in the int64 ∪ uint64 range is
-written as an integer item and decodes to the same number. -/
+/-- Every whole number in the int64 ∪ uint64 range — whatever the precision of the big.Float
+that holds it — decodes to the same number. -/
 def IntsExact : Prop :=
   ∀ (x : Num) (i : Int), x.toInt? = some i → minI64 ≤ i → i ≤ maxU64 →
-    isIntItem (encNum x) = true ∧ ∃ y, unmarshalNumber (encNum x) = .ok y ∧ y.toInt? = some i
+    ∃ y, unmarshalNumber (encNum x) = .ok y ∧ y.toInt? = some i ∧ Num.cmp y x = 0
 
 /-- Whole numbers in the int64 range are written as an integer item (whatever the
 precision of the big.Float that holds them) and decode to the same number. -/
-theorem ints_exact_partial (x : Num) (i : Int) (hx : x.toInt? = some i) (h1 : minI64 ≤ i) (h2 : i ≤ maxI64) :
+theorem ints_int64_integer_item (x : Num) (i : Int) (hx : x.toInt? = some i) (h1 : minI64 ≤ i) (h2 : i ≤ maxI64) :
     isIntItem (encNum x) = true ∧
       ∃ y, unmarshalNumber (encNum x) = .ok y ∧ y.toInt? = some i ∧ Num.cmp y x = 0 := by
   have hr : route x = .int i := route_of_toInt? hx ⟨h1, h2⟩
@@ -61,6 +71,41 @@ theorem ints_exact_partial (x : Num) (i : Int) (hx : x.toInt? = some i) (h1 : mi
   simp only [encNum, hr, encInt]
   split <;> rfl
 
+/-- `IntsExact` holds (since /repo 986ad55: before, a uint64 above the int64 range held at
+fewer bits than it needs came back as another number). -/
+theorem ints_exact : IntsExact := by
+  intro x i hx h1 h2
+  by_cases hr : i ≤ maxI64
+  · exact (ints_int64_integer_item x i hx h1 hr).2
+  · cases x with
+    | inf n => simp [Num.toInt?, Num.isInt] at hx
+    | fin n m e p =>
+      have hout : ¬ (minI64 ≤ i ∧ i ≤ maxI64) := fun h => hr h.2
+      have hfit : wholeFits (.fin n m e p) = true := by
+        have hx' := hx
+        rw [toInt?_fin] at hx'
+        simp only [maxI64] at hr
+        simp only [maxU64] at h2
+        by_cases he : e ≥ 0
+        · simp only [he, if_true, Option.some.injEq] at hx'
+          have hle : m ≤ m * 2 ^ e.toNat := Nat.le_mul_of_pos_right m (Nat.two_pow_pos _)
+          have hle' : (m : Int) ≤ (m : Int) * 2 ^ e.toNat := by
+            have := Int.ofNat_le.mpr hle
+            simpa [Int.natCast_mul, Int.natCast_pow] using this
+          have hm : (m : Int) ≤ i := by
+            cases n
+            · simp only [Bool.false_eq_true, if_false] at hx'
+              omega
+            · simp only [if_true] at hx'
+              omega
+          have hm' : m < 2 ^ 64 := by omega
+          have hb := (Num.bitlen_le_iff m 64).mpr hm'
+          simp only [wholeFits, Num.minPrec]
+          exact decide_eq_true (Nat.le_trans hb (by decide))
+        · simp [he] at hx'
+      obtain ⟨y, hy, hyi, hc, _⟩ := whole_out_back hx hout hfit
+      exact ⟨y, hy, hyi, hc⟩
+
 /-- The decoder reads every integer item of either family exactly — the whole
 uint64 range included. -/
 theorem ints_decode_exact (i : Int) (u : Nat) :
@@ -68,15 +113,13 @@ theorem ints_decode_exact (i : Int) (u : Nat) :
     (∃ y, unmarshalNumber (.uint u) = .ok y ∧ y.toInt? = some (u : Int)) :=
   ⟨(unmarshalNumber_int i).imp fun _ h => ⟨h.1, h.2.1⟩, (unmarshalNumber_uint u).imp fun _ h => ⟨h.1, h.2.1⟩⟩
 
-/-- … but a whole number above the int64 range is NOT written as an integer item
-(`bf.Int64()` is the only integer test in marshal.go): 2^63 travels as decimal text. -/
-theorem ints_exact_counterexample : ¬ IntsExact := by
-  intro h
-  have hx : (Num.fin false 1 63 64).toInt? = some 9223372036854775808 := by decide
-  have := (h (.fin false 1 63 64) 9223372036854775808 hx (by decide) (by decide)).1
-  rw [show encNum (.fin false 1 63 64) = .str (Num.textF (.fin false 1 63 64)) from by
-    simp [encNum, route_of_toInt?_out hx (by decide)]] at this
-  simp [isIntItem] at this
+/-- A wire-format fact, not a defect: a whole number above the int64 range is NOT written as an
+integer item (`bf.Int64()` is the only integer test in marshal.go) — 2^63 travels as the
+decimal text of all its digits (and comes back exactly: `ints_exact`). -/
+theorem uint64_above_int64_travels_as_text :
+    encNum (.fin false 1 63 64) = .str "9223372036854775808" ∧ isIntItem (encNum (.fin false 1 63 64)) = false := by
+  have hr : route (.fin false 1 63 64) = .str "9223372036854775808" := by decide
+  simp [encNum, hr, isIntItem]
 
 /-- A number that is exactly a float64 and not whole is written as a float64 item and
 decodes to numerically the same number. -/
@@ -89,45 +132,84 @@ theorem float64_exact (x : Num) (hf : x.isInf = false) (hi : x.toInt? = none) (h
     | fin n m e p => simp [route, hi, he]
   exact ⟨by simp [encNum, hr], by simp [encNum, hr, unmarshalNumber], toF64_exact_cmp x he⟩
 
-/-- Every other finite number — whole but outside int64, or not exactly a float64 —
-goes through its decimal text `Text('f', -1)`. -/
-theorem float64_exact_otherwise (x : Num) (hf : x.isInf = false)
-    (h : (∃ i, x.toInt? = some i ∧ ¬ (minI64 ≤ i ∧ i ≤ maxI64)) ∨ (x.toInt? = none ∧ (Num.toF64 x).2 = false)) :
-    encNum x = .str (Num.textF x) := by
+/-- Every other finite number goes through a decimal text: a whole number outside int64
+through ALL of its digits (`Text('f', 0)`), a number that is not whole and not exactly a
+float64 through the shortest text that identifies it at its own precision (`Text('f', -1)`). -/
+theorem float64_exact_otherwise (x : Num) (hf : x.isInf = false) :
+    ((∃ i, x.toInt? = some i ∧ ¬ (minI64 ≤ i ∧ i ≤ maxI64)) → encNum x = .str (textF0 x)) ∧
+    (x.toInt? = none ∧ (Num.toF64 x).2 = false → encNum x = .str (Num.textF x)) := by
   cases x with
   | inf _ => simp [Num.isInf] at hf
   | fin n m e p =>
-    rcases h with ⟨i, hi, hr⟩ | ⟨hi, he⟩
-    · simp [encNum, route_of_toInt?_out hi hr]
-    · simp [encNum, route, hi, he]
+    refine ⟨?_, ?_⟩
+    · rintro ⟨i, hi, hr⟩
+      simp [encNum, route_of_toInt?_out hi hr]
+    · rintro ⟨hi, he⟩
+      simp [encNum, route, hi, he]
 
 /-- The infinities are written as float64 ±Inf and come back as infinities (infinity.go). -/
 theorem infinity_exact (n : Bool) :
     encNum (.inf n) = .f64 (.inf n) ∧ unmarshalNumber (encNum (.inf n)) = .ok (.inf n) := by
   simp [encNum, route, unmarshalNumber]
 
-/-- Every known number whose decimal text parses back (`numFits`; automatically true on
-the integer and float paths) decodes to an acceptable number: numerically identical
+/-- Every known number that satisfies `numFits` — automatically true on the integer and float
+paths and for every whole number whose mantissa fits 512 bits; for the other numbers: the
+shortest decimal text parses back — decodes to an acceptable number: numerically identical
 if whole or an exact float64, Equal otherwise. -/
 theorem number_roundtrip (x : Num) (h : numFits x = true) :
     ∃ y, unmarshalNumber (encNum x) = .ok y ∧ numBack y x := encNum_back x h
 
-/-- FULL statement (false): whole numbers of any size come back numerically identical. -/
+/-- FULL statement (false, but only beyond 512 bits of mantissa): whole numbers of any size
+come back numerically identical. -/
 def WholeNumbersExact : Prop :=
   ∀ x : Num, x.isInt = true → ∃ y, unmarshalNumber (encNum x) = .ok y ∧ Num.cmp y x = 0
 
-/-- float64(2^63) is written as "9223372036854776000" — the shortest text that
-identifies it at 53 bits — and decodes to that other number. -/
+/-- Whole numbers of ANY magnitude come back numerically identical, as long as the mantissa
+fits the 512 bits `cty.ParseNumberVal` parses at (`wholeFits`): every number that
+`ParseNumberVal`, `NumberIntVal`, `NumberUIntVal`, `NumberFloatVal` or cty's arithmetic
+produces, at whatever precision it is held (2^63 at 53 bits, 10^200 at 20 bits, …). -/
+theorem whole_numbers_exact_partial (x : Num) (hx : x.isInt = true) (hfit : wholeFits x = true) :
+    ∃ y, unmarshalNumber (encNum x) = .ok y ∧ Num.cmp y x = 0 := by
+  have hn : numFits x = true := by
+    unfold numFits
+    split
+    · simp [hx, hfit]
+    · rfl
+  obtain ⟨y, hy, hb⟩ := encNum_back x hn
+  refine ⟨y, hy, ?_⟩
+  have hw : wholeOrF64 x = true := by
+    cases x with
+    | inf _ => rfl
+    | fin n m e p => simp [wholeOrF64, hx]
+  simpa [numBack, hw] using hb
+
+/-- … and not beyond: 2^512 + 1 held at 513 bits (only reachable through `cty.NumberVal` with a
+caller-made big.Float) is written with all its 155 digits, parsed at 512 bits, and comes back
+as 2^512 (finding `roundtrip-number / whole-wider-than-512-bits`). -/
 theorem whole_numbers_exact_counterexample : ¬ WholeNumbersExact := by
   intro h
-  obtain ⟨y, hy, hc⟩ := h (.fin false 1 63 53) (by decide)
-  have h1 : unmarshalNumber (encNum (.fin false 1 63 53)) = .ok (.fin false 144115188075855875 6 512) := by
-    have hr : route (.fin false 1 63 53) = .str "9223372036854776000" := by decide
+  obtain ⟨y, hy, hc⟩ := h (.fin false (2 ^ 512 + 1) 0 513) (by decide)
+  have h1 : unmarshalNumber (encNum (.fin false (2 ^ 512 + 1) 0 513)) = .ok (.fin false 1 512 512) := by
+    have hr : route (.fin false (2 ^ 512 + 1) 0 513) = .str (textF0 (.fin false (2 ^ 512 + 1) 0 513)) := by
+      decide +kernel
     simp only [encNum, hr]
-    decide
+    decide +kernel
   rw [h1] at hy
   cases hy
   revert hc
+  decide +kernel
+
+/-- Regression (the witness of the repaired finding `roundtrip-number /
+whole-beyond-int64-shortest-text-inexact`): float64(2^63), a whole number beyond int64 held
+at 53 bits, is written as "9223372036854775808" — no longer "9223372036854776000" — and comes
+back as 2^63. -/
+theorem whole_beyond_int64_regression :
+    encNum (.fin false 1 63 53) = .str "9223372036854775808" ∧
+    unmarshalNumber (encNum (.fin false 1 63 53)) = .ok (.fin false 1 63 512) ∧
+    Num.cmp (.fin false 1 63 512) (.fin false 1 63 53) = 0 := by
+  have hr : route (.fin false 1 63 53) = .str "9223372036854775808" := by decide
+  refine ⟨by simp [encNum, hr], ?_, by decide⟩
+  simp only [encNum, hr]
   decide
 
 /-! ## The round trip -/
@@ -138,7 +220,7 @@ constraint as a value of the same type that is an acceptable decoding of it. -/
 def RoundtripCovers : Prop :=
   ∀ (E : Ext) (v : Value) (t : Ty), t.wf = true → wfValue E v = true → Ty.conformErrs t v.ty = 0 →
     SetsRebuild E v →
-    ∃ it v', marshal E v t = .ok it ∧ unmarshal E it t = .ok v' ∧ ApproxV v' v
+    ∃ it v', marshal E v t = .ok it ∧ Unmarshal E it t = .ok v' ∧ ApproxV v' v
 
 /-- The round trip, with unknown values and refinements at any depth and placeholders
 anywhere in the constraint.  Under `Fits` (and the set law): `Marshal` succeeds,
@@ -149,14 +231,14 @@ cut on a boundary `SafeKnownPrefix` accepts, bounds are kept), and is equal in
 every known part. -/
 theorem roundtrip_covers_partial (E : Ext) (v : Value) (t : Ty) (hfit : Fits E t v = true) (hset : SetsRebuild E v)
     (hconf : Ty.conformErrs t v.ty = 0) :
-    ∃ it v', marshal E v t = .ok it ∧ unmarshal E it t = .ok v' ∧ ApproxV v' v :=
+    ∃ it v', marshal E v t = .ok it ∧ Unmarshal E it t = .ok v' ∧ ApproxV v' v :=
   roundtrip E v t hfit hset hconf
 
 /-- For a wholly known value the result is wholly equal: `RawEq` holds part for part
 (numbers: numerically identical when whole or an exact float64, Equal otherwise). -/
 theorem roundtrip_known_partial (E : Ext) (v : Value) (t : Ty) (hfit : Fits E t v = true) (hset : SetsRebuild E v)
     (hconf : Ty.conformErrs t v.ty = 0) (hk : v.whollyKnown = true) :
-    ∃ it v', marshal E v t = .ok it ∧ unmarshal E it t = .ok v' ∧ v'.ty = v.ty ∧ RawEq v.ty v'.v v.v := by
+    ∃ it v', marshal E v t = .ok it ∧ Unmarshal E it t = .ok v' ∧ v'.ty = v.ty ∧ RawEq v.ty v'.v v.v := by
   obtain ⟨it, v', hm, hu, hty, ha⟩ := roundtrip E v t hfit hset hconf
   exact ⟨it, v', hm, hu, hty, approx_rawEq v'.v v.ty v.v hk ha⟩
 
@@ -164,7 +246,7 @@ theorem roundtrip_known_partial (E : Ext) (v : Value) (t : Ty) (hfit : Fits E t 
 approximated, never narrowed or invented. -/
 theorem unknown_type_preserved_partial (E : Ext) (vt t : Ty) (r : Rfn) (hfit : Fits E t ⟨vt, .unk r⟩ = true)
     (hconf : Ty.conformErrs t vt = 0) :
-    ∃ it r', marshal E ⟨vt, .unk r⟩ t = .ok it ∧ unmarshal E it t = .ok ⟨vt, .unk r'⟩ ∧ Weaker vt r' r := by
+    ∃ it r', marshal E ⟨vt, .unk r⟩ t = .ok it ∧ Unmarshal E it t = .ok ⟨vt, .unk r'⟩ ∧ Weaker vt r' r := by
   obtain ⟨it, v', hm, hu, hty, ha⟩ := roundtrip E ⟨vt, .unk r⟩ t hfit
     (by intro n hn; cases vt <;> simp [setNodes] at hn) hconf
   obtain ⟨ty', p'⟩ := v'
@@ -190,18 +272,32 @@ theorem marshal_never_panics (E : Ext) (v : Value) (t : Ty) (w : String) : marsh
 
 /-! ## Counterexamples to the full statement (replays of recorded findings) -/
 
-/-- (1) float64(2^63), a whole number beyond int64 held at 53 bits, comes back as
-9223372036854776000 (finding `roundtrip-number / whole-beyond-int64-shortest-text-inexact`). -/
-theorem roundtrip_covers_counterexample_whole : ¬ RoundtripCovers := by
+/-- (1) 2^512 + 1 held at 513 bits, a whole number whose mantissa does not fit the 512 bits
+the decoder parses at, comes back as 2^512 (finding `roundtrip-number /
+whole-wider-than-512-bits`; the earlier witness of this clause, float64(2^63), round-trips
+since /repo 986ad55: `roundtrip_whole_beyond_int64_regression`). -/
+theorem roundtrip_covers_counterexample_wide : ¬ RoundtripCovers := by
   intro h
-  have := rtCheck_of (h E0 ⟨.number, .n (.fin false 1 63 53)⟩ .number (by decide) (by decide) (by decide) (noSets rfl))
-    (chk := fun v' => match v'.v with | .n y => Num.cmp y (.fin false 1 63 53) == 0 | _ => false)
+  have := rtCheck_of (h E0 ⟨.number, .n (.fin false (2 ^ 512 + 1) 0 513)⟩ .number (by decide) (by decide) (by decide) (noSets rfl))
+    (chk := fun v' => match v'.v with | .n y => Num.cmp y (.fin false (2 ^ 512 + 1) 0 513) == 0 | _ => false)
     (by
       rintro ⟨ty', p'⟩ ⟨_, ha⟩
       cases p' <;> simp only [Approx] at ha <;> try exact ha.elim
       simpa [numBack, wholeOrF64, Num.isInt] using ha)
   revert this
-  decide
+  decide +kernel
+
+/-- Regression: the witnesses of the four repaired findings with root cause
+`whole-beyond-int64-shortest-text-inexact` satisfy `Fits`, so they round-trip by
+`roundtrip_covers_partial`: float64(2^63) as a known number and as an inclusive lower bound,
+float64(2^64 - 2^11) as an upper bound, and float64(2^63) below another whole bound (a pair
+that `Unmarshal` refused when both bounds moved). -/
+theorem roundtrip_whole_beyond_int64_regression :
+    Fits E0 .number ⟨.number, .n (.fin false 1 63 53)⟩ = true ∧
+    Fits E0 .number ⟨.number, .unk (.num .u (some ⟨.fin false 1 63 53, true⟩) none)⟩ = true ∧
+    Fits E0 .number ⟨.number, .unk (.num .f none (some ⟨.fin false 9007199254740991 11 53, true⟩))⟩ = true ∧
+    Fits E0 .number ⟨.number, .unk (.num .u (some ⟨.fin false 1 63 53, true⟩) (some ⟨.fin false 1 64 53, true⟩))⟩ = true := by
+  decide +kernel
 
 /-- (2) `Unmarshal` refuses what `Marshal` wrote for an unknown number whose bound has a
 long decimal text (2^3500: 1054 digits): the refinement body exceeds the decoder's
@@ -229,7 +325,7 @@ theorem roundtrip_covers_counterexample_type : ¬ RoundtripCovers := by
 to the constraint comes back as an unknown value of the same type. -/
 def UnknownTypePreserved : Prop :=
   ∀ (E : Ext) (vt t : Ty) (r : Rfn), t.wf = true → wfValue E ⟨vt, .unk r⟩ = true → Ty.conformErrs t vt = 0 →
-    ∃ it r', marshal E ⟨vt, .unk r⟩ t = .ok it ∧ unmarshal E it t = .ok ⟨vt, .unk r'⟩
+    ∃ it r', marshal E ⟨vt, .unk r⟩ t = .ok it ∧ Unmarshal E it t = .ok ⟨vt, .unk r'⟩
 
 /-- an unknown list of strings under the constraint list(dynamic) comes back as an unknown
 list(dynamic) (same finding as (3)) -/
@@ -275,7 +371,11 @@ example : (Num.fin false 5 0 512).toInt? = some 5 ∧ minI64 ≤ (5 : Int) ∧ (
 example : (⟨.list .string, .seq [.s "a", .marked ["m"] (.s "b")]⟩ : Value).containsMarked = true := by decide
 example : Fits E0 .dyn ⟨.list .number, .seq [.n (.fin false 1 63 64), .n (.fin false 1 (-1) 512)]⟩ = true := by decide
 example : numFits (.fin false 1 63 64) = true ∧ numFits (.fin false 3 (-1) 20) = true ∧
-    numFits (.fin false 1 63 53) = false := by decide
+    numFits (.fin false 1 63 53) = true ∧ numFits (.fin false (2 ^ 512 + 1) 0 513) = false := by decide +kernel
+-- a constraint with optional-attribute annotations: `Unmarshal` takes them off, the value's type has none
+example : Fits E0 (.object ["a", "b"] [.string, .number] [true, false])
+    ⟨.object ["a", "b"] [.string, .number] [false, false], .smap ["a", "b"] [.null, .n (.fin false 1 70 53)]⟩ = true := by decide
+example : (Num.fin false 1 200 8).isInt = true ∧ wholeFits (.fin false 1 200 8) = true := by decide
 example : (Num.fin false 1 63 64).toInt? = some 9223372036854775808 := by decide
 example : (Num.toF64 (.fin false 3 (-1) 512)).2 = true ∧ (Num.fin false 3 (-1) 512).toInt? = none := by decide
 
